@@ -2,12 +2,16 @@
 import os
 from explore import Job, run_jobs, generic_search, replay_with_monitor
 import c19lib as L
+import c19glue2
+import c19bone
 
 FMT = ("Timer: load, reload, en, update_value.re | Watchdog: feed, enable, reset, pause_halted, halted, cycles | "
        "WaitTimer: wait | PWM: enable, reset, width, period | timeline: trigger | accumulator: enable | "
        "RS232PHYTX: sink.valid, sink.data | RS232PHYRX: pads.rx | SPIMaster: start, length, mosi, cs, cs_mode, "
        "loopback, clk_divider, pads.miso | SPISlave: pads.clk, pads.cs_n, pads.mosi, word to send, loopback | "
-       "I2CMasterMachine: start, stop, write, read, sda_i, load, poke, data, ack")
+       "I2CMasterMachine: start, stop, write, read, sda_i, load, poke, data, ack | bitbang.I2CMaster: w.scl, w.oe, w.sda, "
+       "ext_scl, ext_sda | bitbang.I2CMasterSim: w.scl, w.oe, w.sda, sda_in | bitbang.SPIMaster: w.clk, w.mosi, w.oe, w.cs, "
+       "ext_mosi, pads.miso | SPIMaster<->SPISlave: start, length, mosi, cs, cs_mode, loopback, clk_divider, slave word | Stream2Wishbone: sink.valid, sink.data, source.ready, wishbone.ack, wishbone.dat_r | c19glue2 instances: see `open` specs in lean/LitexModel/Periph/Glue2.lean")
 
 TWS = [1 << 31, 1 << 30, 3 << 29, 0x55555555]          # bit periods 2, 4, 8/3, 3 cycles
 TW_115200 = int((115200 / 100e6) * 2 ** 32)
@@ -81,6 +85,12 @@ def jobs(tier):
                                                      cs=((0, 0), (1, 0), (1, 1)), lbs=(0, 1)),
                               tag="/div2/cs,loopback,length 0..3"), heavy=True, max_states=800 if quick else 3000000)
     A(lambda: L.SpiSlaveInst(2, L.prod((0, 1), (0, 1), (0, 1), (1, 2), (0,))), heavy=True, max_states=4000 if quick else 60000)
+    if not quick:
+        # complete explorations that only fit the thorough tier (measured: 132 k / 66 k product states)
+        A(lambda: L.SpiSlaveInst(1, L.prod((0, 1), (0, 1), (0, 1), (1,), (0,))), heavy=True, max_states=400000)
+        for al, div, w in ((True, 3, 0b0110), (False, 2, 0b1001)):
+            A(lambda al=al, div=div, w=w: L.SpiMasterInst(4, al, spi_alphabet(4, div, words=(w,)), tag="/div%d/one word" % div),
+              heavy=True, max_states=400000)
     # ---- (5) I2C machine: all command letters (incl. compound and overlapping ones), data pokes
     A(lambda: L.I2cInst(2, 1, i2c_alphabet(1, sdas=(1,)), tag="/all commands"), heavy=True, max_states=30000 if quick else 3000000)
     A(lambda: L.I2cInst(2, 0, i2c_alphabet(0, cmds=[(0, 0, 0, 0), (0, 0, 1, 0), (0, 0, 0, 1), (0, 1, 0, 0), (1, 0, 0, 0)],
@@ -107,6 +117,24 @@ def jobs(tier):
     A(lambda: L.SpiMasterInst(3, False, spi_alphabet(3, 2, words=(5,)), csr=True, tag="/div2"), heavy=True,
       max_states=1500 if quick else 120000)
 
+    # ---- bitbang.py (software-driven masters: stateless pad wiring, complete letter sets)
+    A(lambda: L.mk_bb_i2c())
+    A(lambda: L.mk_bb_i2c(sim=True))
+    for ncs in (1, 3, 4):
+        A(lambda ncs=ncs: L.mk_bb_spi(ncs))
+
+    # ---- SPIMaster and SPISlave wired pad to pad (spi_link_* theorems; one divider per run)
+    A(lambda: L.SpiLinkInst(2, True, 2, alphabet=[(st, ln, 0b10, 1, 0, 0, 2, tx) for st in (0, 1) for ln in (1, 2)
+                                                  for tx in (1, 2)], divs=(2,)), heavy=True, max_states=1500 if quick else 60000)
+    for dw, al, dws, div in ((8, True, 8, 2), (8, False, 8, 8), (6, False, 4, 3), (4, True, 6, 9)):
+        B(lambda dw=dw, al=al, dws=dws, div=div: L.SpiLinkInst(dw, al, dws, divs=(div,)), cycles=3000 if quick else 40000)
+
+    # ---- remaining pieces of uart.py / misc.py: add_auto_tx_flush, multiplexers, PHY model, crossover, BitSlip,
+    #      chooser / displacer / split (instances and monitors in harness/c19glue2.py)
+    J.extend(c19glue2.jobs(tier))
+    # ---- uart.py: Stream2Wishbone (UARTBone command FSM), instances and protocol scoreboard in harness/c19bone.py
+    J.extend(c19bone.jobs(tier))
+
     # ---- mode B: realistic sizes
     for dw, al, div, kw in ((5, True, 3, {}), (6, False, 9, {"ncs": 3}), (7, True, 2, {"csr": True}),
                             (40, False, 2, {"ncs": 16}), (64, True, 5, {"csr": True, "ncs": 2}), (33, False, 255, {})):
@@ -122,6 +150,9 @@ def jobs(tier):
     # other wide counters driven to large values
     B(lambda: L.mk_pwm(fixed=(70000, 66000)), cycles=75000 if quick else 220000, runs=1)
     B(lambda: L.mk_pwm(csr=True, fixed=(300, 257)), cycles=3000)
+    # corner values of (period, width): 0, 1 and the 32-bit maximum (pwm_period_zero_one / pwm_width_corners)
+    for per, wid in ((0, 5), (1, 0), (1, 1), (0xffffffff, 0xffffffff), (5, 0xffffffff), (0xffffffff, 0), (0, 0)):
+        B(lambda per=per, wid=wid: L.mk_pwm(fixed=(per, wid)), cycles=600, runs=1)
     B(lambda: L.mk_waittimer(70000), cycles=150000 if quick else 400000, runs=1)
     B(lambda: L.mk_waittimer(1000), cycles=12000)
     B(lambda: L.mk_watchdog(16, 300))
@@ -136,6 +167,9 @@ def jobs(tier):
         B(lambda: L.I2cInst(20, 0xfffff), cycles=1100000, runs=1)
     B(lambda: L.SpiMasterInst(16, False, csr=True, default_div=(100e6, 30e6)))
     B(lambda: L.SpiMasterInst(9, True, default_div=(50e6, 12.5e6), ncs=4))
+    # manual chip-select mode and loopback held over whole transfers (spi_master_any_options / spi_master_loopback)
+    B(lambda: L.SpiMasterInst(8, True, divs=(3,), ncs=2, manual=True, tag="/div3,manual cs"))
+    B(lambda: L.SpiMasterInst(12, False, divs=(4,), csr=True, manual=True, tag="/div4,manual cs"))
     B(lambda: L.SpiSlaveInst(5))
     B(lambda: L.SpiSlaveInst(40))
     B(lambda: L.mk_watchdog(32, 7, with_halted=False))
@@ -225,7 +259,9 @@ def correspond(ctx):
         "C12's subject, the event manager C15's; only the raw event triggers are compared here",
         "theorem hypotheses: tuning word / SPI clk_divider / I2C divider constant during a frame or transfer; "
         "0 < tuning word < 2^32; 2 <= clk_divider < 2^16; 1 <= length <= data_width; I2C divider load >= 1; "
-        "uart_loopback_partial: at least 4 cycles per bit; uart_rx_tolerates_2pct: at least 16 cycles per bit",
+        "uart_loopback_partial: at least 4 cycles per bit (uart_loopback_aligned_partial: the exact alignment condition); "
+        "rate tolerance: mismatch m per mille needs 6000*tw + 18*m*2^32 <= 1000*2^32 (2 %: about 9.4 cycles per bit; "
+        "kernel-checked counterexamples at 4 and 9.06 cycles per bit)",
         "MultiReg synchronisers are two plain registers (metastability is C05's subject); the open-drain pads of I2CMaster "
         "are simulated by a harness stand-in for Tristate (pad = oe ? 0 : ext)",
     ]
@@ -318,7 +354,13 @@ def _probes(ctx):
                          "for up to 65536 cycles (`==` compare) - outside the quantifier (1 <= length <= data_width, "
                          "constant divider >= 2)")
     ctx.cov.notes.append("RS232PHYTX with tuning word 0 never leaves RUN (baud rate 0, outside the range); RS232PHYRX does "
-                         "not check the start bit at its sample point; equal-rate loopback needs >= 4 cycles per bit")
+                         "not check the start bit at its sample point; equal-rate loopback needs >= 4 cycles per bit (exactly: "
+                         "loopbackAligned tw; 0x55555555 works, 0x55555556 does not); a +-2 % transmitter is recovered for "
+                         ">= 9.375 cycles per bit (proved) and not for 4 or 9.06 cycles per bit (kernel-checked witnesses): "
+                         "the receiver samples once per bit without oversampling")
+    ctx.cov.notes.append("bitbang.I2CMaster: w.oe gates only the SDA driver; w.scl = 0 pulls SCL low also with w.oe = 0 (the "
+                         "field description says oe = 0 disconnects both drivers; the software driver relies on the code's "
+                         "behaviour) - documentation mismatch, modelled as coded")
     ctx.cov.notes.append("I2CMaster: cg.load = 0 (the reset value of the divider) ticks every cycle, SCL then toggles every "
                          "sys cycle and the SDA hold stage releases data changes while SCL is high - the divider range is "
                          "load >= 1 (hypothesis of i2c_pad_legal); a command written while busy is ignored (since 86eb66e "
